@@ -3,6 +3,7 @@
 package client
 
 import (
+	"github.com/aliyun/alibaba-cloud-sdk-go/services/ecs"
 	"k8s.io/utils/lru"
 
 	zz "github.com/AliyunContainerService/terway/internal/zzverif"
@@ -150,7 +151,7 @@ func ZZ_C16_generator_interleaved() {
 	gen := zzGen()
 	h := "h1"
 	t1 := gen.GenerateKey(h)
-	gen.PutBack(h, t1) // the call failed: its token is available for the retry
+	gen.PutBack(h, t1)                  // the call failed: its token is available for the retry
 	other := zz.Fork("other.thread", 3) // 0 nothing, 1 a same-parameter GenerateKey ran first, 2 a PutBack of another token ran first
 	var tB string
 	first := true
@@ -186,5 +187,99 @@ func ZZ_C16_generator_interleaved() {
 	case 2:
 		t3 := gen.GenerateKey(h)
 		zz.Assert(tA != t3 && (tA == "t-other" || tA == t1) && (t3 == "t-other" || t3 == t1), "a token put back while another request waits for the mutex is not lost: both put-back tokens are handed out again, each once")
+	}
+}
+
+func zzTriBool(name string) *bool {
+	switch zz.Fork(name, 3) {
+	case 1:
+		v := false
+		return &v
+	case 2:
+		v := true
+		return &v
+	}
+	return nil
+}
+
+// the parameters of a create-interface call are what goes out on the wire:
+// two requests are the same request when every field but the token is equal
+func zzSameCreateReq(a, b *ecs.CreateNetworkInterfaceRequest) bool {
+	if len(*a.SecurityGroupIds) != len(*b.SecurityGroupIds) || len(*a.Tag) != len(*b.Tag) {
+		return false
+	}
+	same := zz.And(a.VSwitchId == b.VSwitchId, a.InstanceType == b.InstanceType, a.NetworkInterfaceTrafficMode == b.NetworkInterfaceTrafficMode,
+		a.ResourceGroupId == b.ResourceGroupId, a.Description == b.Description,
+		a.SecondaryPrivateIpAddressCount == b.SecondaryPrivateIpAddressCount, a.Ipv6AddressCount == b.Ipv6AddressCount,
+		a.DeleteOnRelease == b.DeleteOnRelease, a.SourceDestCheck == b.SourceDestCheck)
+	for i := range *a.SecurityGroupIds {
+		same = zz.And(same, (*a.SecurityGroupIds)[i] == (*b.SecurityGroupIds)[i])
+	}
+	for i := range *a.Tag {
+		same = zz.And(same, (*a.Tag)[i].Key == (*b.Tag)[i].Key, (*a.Tag)[i].Value == (*b.Tag)[i].Value)
+	}
+	return same
+}
+
+// C16(b): the token pool is keyed by everything that goes out on the wire,
+// the optional attributes (delete-on-release, source/dest check: unset, false,
+// true) included: a token put back by a failed call is reused by the next
+// call exactly when that call sends the same request.
+func ZZ_C16_create_optional_attrs() {
+	gen := zzGen()
+	mk := func(p string) *CreateNetworkInterfaceOptions {
+		return &CreateNetworkInterfaceOptions{NetworkInterfaceOptions: &NetworkInterfaceOptions{
+			VSwitchID:             zz.OneOf(p+".vsw", "vsw-1", "vsw-2"),
+			SecurityGroupIDs:      []string{"sg-1"},
+			IPCount:               2,
+			Tags:                  map[string]string{"creator": "terway"},
+			DeleteENIOnECSRelease: zzTriBool(p + ".delete.on.release"),
+			SourceDestCheck:       zzTriBool(p + ".source.dest.check"),
+		}}
+	}
+	a, b := mk("a"), mk("b")
+	ra, rollbackA, errA := a.Finish(gen)
+	zz.Assert(errA == nil, "valid parameters are accepted")
+	rollbackA() // the first call failed
+	rb, _, errB := b.Finish(gen)
+	zz.Assert(errB == nil, "valid parameters are accepted")
+	same := zzSameCreateReq(ra, rb)
+	zz.Assert(zz.Implies(!same, rb.ClientToken != ra.ClientToken), "a call that sends a different request never reuses a put-back token")
+	zz.Assert(zz.Implies(same, rb.ClientToken == ra.ClientToken), "a call that sends the same request reuses the put-back token")
+	// the retry of the failed call itself: its token is still there unless the same request took it
+	ra2, _, _ := a.Finish(gen)
+	zz.Assert(zz.Implies(!same, ra2.ClientToken == ra.ClientToken), "the retry of the failed call finds its own token")
+}
+
+// C16(b), EFLO create: the put-back token of a failed create is reused
+// exactly by a call that sends the same request (vSwitch, security group,
+// node, zone).
+func ZZ_C16_eflo_create_tokens() {
+	gen := zzGen()
+	mk := func(p string) *CreateNetworkInterfaceOptions {
+		return &CreateNetworkInterfaceOptions{NetworkInterfaceOptions: &NetworkInterfaceOptions{
+			VSwitchID:        zz.OneOf(p+".vsw", "vsw-1", "vsw-2"),
+			SecurityGroupIDs: []string{zz.OneOf(p+".sg0", "sg-1", "sg-2")},
+			InstanceID:       zz.OneOf(p+".node", "", "i-1", "i-2"),
+			ZoneID:           zz.OneOf(p+".zone", "", "z-1", "z-2"),
+			IPCount:          zz.IntRange(p+".ipcount", 0, 1),
+		}}
+	}
+	a, b := mk("a"), mk("b")
+	ra, rollbackA, errA := a.EFLO(gen)
+	zz.Assert(errA == nil, "valid parameters are accepted")
+	failed := zz.Bool("a.failed")
+	if failed {
+		rollbackA()
+	}
+	rb, _, errB := b.EFLO(gen)
+	zz.Assert(errB == nil, "valid parameters are accepted")
+	same := zz.And(ra.VSwitchId == rb.VSwitchId, ra.SecurityGroupId == rb.SecurityGroupId, ra.NodeId == rb.NodeId, ra.ZoneId == rb.ZoneId, ra.Description == rb.Description)
+	zz.Assert(ra.ClientToken != "" && rb.ClientToken != "", "a token is always set")
+	if failed {
+		zz.Assert(zz.Implies(!same, rb.ClientToken != ra.ClientToken), "a call that sends a different request never reuses a put-back token")
+		zz.Assert(zz.Implies(same, rb.ClientToken == ra.ClientToken), "a call that sends the same request reuses the put-back token")
+	} else {
+		zz.Assert(rb.ClientToken != ra.ClientToken, "requests in flight at the same time never share a token")
 	}
 }
